@@ -20,6 +20,7 @@ PACKAGES = {"1P": "[1] U [2]", "2P": "[3]", "3P": "[1][901]", "4P": "[501]", "9P
 # package definitions vary from one content evaluation result to the next (same key, other expression)
 PACKAGE_CHOICES = {"1P": ["[1] U [2]", "[2]", "[1] O [4]"], "2P": ["[3]", "[4]", "[1] X [3]"], "3P": ["[1][901]", "[2][902]"], "4P": ["[501]", "[502]"], "9P": [None]}
 CURRENT_PACKAGES = dict(PACKAGES)
+EXTRA_ATTRS = [False]  # whether to_maus fills the optional attributes ahb_line_index / section_name (set per case by validation_cases / reset_cer)
 EMPTY_HINT = [0.0]   # probability that a hint of a generated content evaluation result has the empty text (set by the checks that want it)
 
 
@@ -220,12 +221,21 @@ def to_maus(node):
     from maus.models.edifact_components import DataElementDataType, DataElementFreeText, DataElementValuePool, Segment, SegmentGroup, ValuePoolEntry
 
     k = node[0]
+    extra = {}
+    if EXTRA_ATTRS[0] and k in ("G", "S"):
+        # attributes of the maus model that say nothing about the requirement: a line index (NOT in list order) and, for segments, a section name
+        import random as _random
+
+        r = _random.Random(f"{node[1]}|{node[2]}|{len(node[3])}")
+        extra["ahb_line_index"] = r.randint(0, 400)
+        if k == "S":
+            extra["section_name"] = r.choice(["Nachrichten-Kopfsegment", "Beginn der Nachricht", "MP-ID Absender", None])
     if k == "G":
         ch = [to_maus(c) for c in node[3]]
         return SegmentGroup(discriminator=node[1], ahb_expression=node[2], segment_groups=[c for c in ch if isinstance(c, SegmentGroup)],
-                            segments=[c for c in ch if isinstance(c, Segment)])
+                            segments=[c for c in ch if isinstance(c, Segment)], **extra)
     if k == "S":
-        return Segment(discriminator=node[1], ahb_expression=node[2], data_elements=[to_maus(c) for c in node[3]])
+        return Segment(discriminator=node[1], ahb_expression=node[2], data_elements=[to_maus(c) for c in node[3]], **extra)
     if k == "F":
         kw = {} if node[4] is None else {"value_type": DataElementDataType[node[4]]}
         return DataElementFreeText(discriminator=node[1], ahb_expression=node[2], entered_input=node[3], data_element_id="0001", **kw)
@@ -364,11 +374,12 @@ def setup_cer(rng, unknown=0.05):
 
 def reset_cer(case):
     """re-install the content evaluation result (incl. the package table) a case was generated with"""
+    EXTRA_ATTRS[0] = bool(case.get("extra_attrs"))
     rc, h, fc = case["cer"]
     evalimpl.set_cer(rc=rc, hints=h, fc=fc, packages=dict(case["packages"]))
 
 
-def validation_cases(ctx, n_trees, kind="any", unknown=0.05, flags=(True, False), revisit=0.0, repeat_discriminators=0.0):
+def validation_cases(ctx, n_trees, kind="any", unknown=0.05, flags=(True, False), revisit=0.0, repeat_discriminators=0.0, extra_attrs=0.0):
     """yields dicts: cer, lines, soll, result, cache, term (Gallina val_case).
     revisit: probability that a tree is the previous tree again, validated under another content evaluation result (the same expression strings
     meet other content in the same process)"""
@@ -395,14 +406,16 @@ def validation_cases(ctx, n_trees, kind="any", unknown=0.05, flags=(True, False)
         for k_, v_ in kinds.items():
             for _i in range(v_):
                 ctx.dist("ahb_tree.node_kind", {"G": "segment group", "S": "segment", "F": "free text", "P": "value pool"}[k_])
+        EXTRA_ATTRS[0] = ctx.rng.random() < extra_attrs
         for soll in flags:
             res = run_validation(lines, soll)
             ctx.dist("validation.outcome", "rows" if res[0] == "ok" else str(res[1]))
             if res[0] == "ok":
                 for r_ in res[1]:
                     ctx.dist("validation.status", r_.validation_result.requirement_validation.name)
-            out.append({"cer": (rc, h, fc), "packages": dict(CURRENT_PACKAGES), "lines": lines, "soll": soll, "res": res, "cache": cache,
+            out.append({"cer": (rc, h, fc), "packages": dict(CURRENT_PACKAGES), "lines": lines, "soll": soll, "res": res, "cache": cache, "extra_attrs": EXTRA_ATTRS[0],
                         "term": f"({gcer(rc, h, fc)}, {lt}, {gbool(soll)}, {val_obs(res, inv)})"})
+    EXTRA_ATTRS[0] = False
     return out
 
 
@@ -450,7 +463,7 @@ def check_val_correspondence(ctx, cases, tag):
 
 def describe(case):
     return {"lines": case["lines"], "soll_is_required": case["soll"], "rc": case["cer"][0], "fc": {k: list(v) for k, v in case["cer"][2].items()},
-            "packages": case.get("packages", PACKAGES)}
+            "packages": case.get("packages", PACKAGES), "optional_attributes_filled": bool(case.get("extra_attrs"))}
 
 
 def replay_validation(path):
@@ -465,6 +478,7 @@ def replay_validation(path):
         return n
 
     lines = [untuple(n) for n in inp["lines"]]
+    EXTRA_ATTRS[0] = bool(inp.get("optional_attributes_filled"))
     evalimpl.set_cer(rc=inp["rc"], hints={k: "H" + k for k in HINTS}, fc={k: tuple(v) for k, v in inp["fc"].items()}, packages=dict(inp.get("packages", PACKAGES)))
     print("expected:", r.get("expected"))
     print("observed when recorded:", r.get("observed"))
